@@ -88,7 +88,7 @@ def main():
             detail = [l for l in r.stdout.splitlines() if l.startswith('   ')][:3]
             res['checks'][c] = {'exit': r.returncode, 'violations': viol[:5], 'detail': detail, 'tail': r.stdout.splitlines()[-1:] , 'wall_s': round(time.time() - t0, 1)}
             res['ran'].append('VERIF_REPO=<worktree with patch> python3 vcheck.py %s %s -> exit %d' % (c, tier, r.returncode))
-        res['detected_by'] = [c for c, v in res['checks'].items() if v['exit'] == 1]
+        res['detected_by'] = [c for c, v in res['checks'].items() if v['exit'] == 1 and v['violations']]      # (a crash of the driver also exits 1)
     finally:
         sh(['git', '-C', WT, 'checkout', '--', '.'])
     dst = os.path.join(VERIF, 'seeded', sid); os.makedirs(dst, exist_ok=True)
